@@ -1,5 +1,6 @@
 import Driver.Util
 import ZxVerif.Spec.Ay
+import ZxVerif.Model.AyFilter
 /-
 Sub-protocol `C18`: the integer core of AymPrecise, the chip-definition spec, the ZXAyChip file.
 All numbers hexadecimal unless said otherwise.
@@ -14,6 +15,7 @@ All numbers hexadecimal unless said otherwise.
   spec lfsr <x>                -> next 17-bit LFSR value
   spec idx <r7> <volreg> <ch> <tone> <noise> <level>  -> DAC index
   spec place <mode> <ch>       -> <left gain² in halves> <right gain² in halves>
+  spec fir                     -> the FIR table of the ℚ-model: j:c_j·10^22 (decimal), comma separated, incl. 96:centre
   chip reset | chip sel <v> | chip w <v>   -> ok
   chip r <value the real port returned>    -> <model> <spec last written> <accepted 0|1>
 -/
@@ -77,6 +79,8 @@ def handle (s : St) : List String → St × String
   | ["spec", "place", mode, ch] =>
     let g := Spec.gains2 (Spec.placement (modeOf (hexNatD mode)) (hexNatD ch))
     (s, s!"{g.1} {g.2}")
+  | ["spec", "fir"] =>
+    (s, ",".intercalate ((Filter.firPairs.map fun p => s!"{p.1}:{p.2}") ++ [s!"96:{Filter.firCenter}"]))
   | ["chip", "reset"] => ({ s with chip := {}, file := {} }, "ok")
   | ["chip", "sel", v] =>
     ({ s with chip := s.chip.selectReg (bv8 v), file := s.file.step (.select (bv8 v)) }, "ok")
